@@ -403,6 +403,16 @@ pub struct Sim<'a> {
     pub cfg: RunCfg,
     /// address of a randomising node for addressed tapes (default: node id)
     pub address: Option<&'a dyn Fn(usize) -> u64>,
+    /// idealised randomness: when set, Random / PRF nodes are answered by the oracle (C03 exact mode)
+    pub oracle: Option<&'a std::cell::RefCell<dyn RandomOracle + 'a>>,
+}
+
+/// Idealised source of randomness (used only by C03's exact mode; never by any other check).
+pub trait RandomOracle {
+    /// value of a Random node `node` drawn by party `p`
+    fn random(&mut self, p: usize, node: usize, ty: &Type) -> Option<Value>;
+    /// value of PRF(key, iv) of type `ty` evaluated by party `p` at node `node`
+    fn prf(&mut self, p: usize, node: usize, key: &Value, iv: u64, ty: &Type) -> Option<Value>;
 }
 
 fn idx_from_value(v: &Value, t: &Type) -> Option<usize> {
@@ -414,7 +424,7 @@ fn idx_from_value(v: &Value, t: &Type) -> Option<usize> {
 
 impl<'a> Sim<'a> {
     pub fn new(gv: &'a GraphView, cfg: RunCfg) -> Sim<'a> {
-        Sim { gv, cfg, address: None }
+        Sim { gv, cfg, address: None, oracle: None }
     }
 
     /// inputs[k][p]: value of the k-th Input node at party p.
@@ -676,7 +686,7 @@ impl<'a> Sim<'a> {
                             let depvals: Vec<PV> = ni.deps.iter().map(|d| parties[p].vals[*d].clone().expect("dep not final")).collect();
                             let r = {
                                 let ev: &mut SimpleEvaluator = if let Some(se) = shared_eval.as_mut() { se } else { &mut parties[p].evals[inst] };
-                                eval_node(gv, node, &depvals, ev, cfg, p, self.address, &mut res)
+                                eval_node(gv, node, &depvals, ev, cfg, p, self.address, self.oracle, &mut res)
                             };
                             match r {
                                 Ok(v) => {
@@ -804,6 +814,7 @@ fn eval_node(
     cfg: &RunCfg,
     p: usize,
     address: Option<&dyn Fn(usize) -> u64>,
+    oracle: Option<&std::cell::RefCell<dyn RandomOracle + '_>>,
     res: &mut RunResult,
 ) -> Result<PV, String> {
     let ni = &gv.nodes[node];
@@ -865,6 +876,21 @@ fn eval_node(
     }
     if let Operation::PRF(iv, _) | Operation::PermutationFromPRF(iv, _) = &ni.op {
         res.prf_queries.push((p, node, crate::vals::value_hash(&vals[0]), *iv));
+    }
+    if let Some(or) = oracle {
+        match &ni.op {
+            Operation::Random(t) => {
+                if let Some(v) = or.borrow_mut().random(p, node, t) {
+                    return Ok(PV::Leaf(v));
+                }
+            }
+            Operation::PRF(iv, t) => {
+                if let Some(v) = or.borrow_mut().prf(p, node, &vals[0], *iv, t) {
+                    return Ok(PV::Leaf(v));
+                }
+            }
+            _ => {}
+        }
     }
     let node_h = ni.node.clone();
     let r = if cfg.addressed && ni.is_randomizing() {
